@@ -36,7 +36,8 @@ Record valid_ts (ts : tseq) : Prop := {
   v_bp_mem : forall e ed, get (ts_edges ts) e = Ok ed ->
       (exists i, 0 <= i <= num_trees ts /\ bp ts i = e_left ed) /\
       (exists i, 0 <= i <= num_trees ts /\ bp ts i = e_right ed);
-  v_sites : 0 < ts_nsites ts -> zlen (ts_tree_sites ts) = num_trees ts
+  v_sites : 0 < ts_nsites ts -> zlen (ts_tree_sites ts) = num_trees ts;
+  v_time : time_ok ts = true
 }.
 
 (* ---- reflection helpers ---- *)
@@ -133,6 +134,7 @@ Lemma valid_tsb_sound ts : valid_tsb ts = true -> valid_ts ts.
 Proof.
   unfold valid_tsb. intros H.
   repeat (match type of H with _ && _ = true => apply andb_true_iff in H; destruct H as [H ?H] end).
+  match goal with [ X : time_ok _ = true |- _ ] => rename X into Htime end.
   match goal with [ X : (_ <=? 0) || _ = true |- _ ] => rename X into Hsites end.
   rename H into HL.
   match goal with [ X : forallb (fun ed => memb _ _ && memb _ _) _ = true |- _ ] => rename X into Hmem end.
